@@ -632,6 +632,14 @@ def run_check(prop, tier, seed):
             if rp is None:
                 return ('unrepro', c, f)
             same, allm = do_replay(run, rp)
+            if not same and not c.get('replay_prefix') and c['trace_module'] != 'Trace_Lin':
+                # process-wide state (pools, caches) may come from the cases this process ran before: replay them too
+                c2 = dict(c, replay_prefix=True)
+                rp2 = replay_file(run, c2, run.sub('cand2'))
+                if rp2 is not None:
+                    same, allm = do_replay(run, rp2)
+                    if same:
+                        c['replay_prefix'] = True
             if not same:
                 return ('unrepro', c, f)
             return ('confirmed', c, f)
